@@ -8,10 +8,12 @@ package main
 
 import (
 	"encoding/json"
+	"errors"
 	"fmt"
 	"os"
 	"path/filepath"
 	"sort"
+	"strconv"
 	"strings"
 
 	"github.com/hyperledger/aries-framework-go/component/storageutil/mem"
@@ -19,7 +21,6 @@ import (
 	"github.com/hyperledger/aries-framework-go/pkg/didcomm/protocol/introduce"
 	ic "github.com/hyperledger/aries-framework-go/pkg/didcomm/protocol/issuecredential"
 	pp "github.com/hyperledger/aries-framework-go/pkg/didcomm/protocol/presentproof"
-	mocksvc "github.com/hyperledger/aries-framework-go/pkg/mock/didcomm/service"
 	"github.com/hyperledger/aries-framework-go/spi/storage"
 
 	arieslog "github.com/hyperledger/aries-framework-go/component/log"
@@ -38,6 +39,9 @@ type Op struct {
 	T    int    `json:"t,omitempty"`   // msg: thread number
 	Ev   int    `json:"ev,omitempty"`  // continue/stop: index of the action event (order of arrival)
 	Opt  string `json:"opt,omitempty"` // continue: option kind
+	// Fault injected during the op: "" | get | tp | put<k> | send<k>
+	// (state read fails | transitional payload write fails | k-th state write fails | k-th messenger call fails)
+	Fault string `json:"fault,omitempty"`
 }
 
 // Case is a history for one protocol.
@@ -57,6 +61,8 @@ type Obs struct {
 	Thread int      `json:"thread"`
 	Err    string   `json:"err,omitempty"`
 	Tape   []string `json:"tape,omitempty"`
+	// FiredAt: index (within the op) of the executed state whose network action failed (-1: no send failed)
+	FiredAt int `json:"fired_at"`
 }
 
 type provider struct {
@@ -82,8 +88,52 @@ type stateEv struct {
 	id  string
 }
 
+// faultMessenger fails the k-th call made to it during the current op (mock messenger otherwise).
+type faultMessenger struct {
+	w       *world
+	failAt  int
+	n       int
+	firedAt int
+}
+
+var errSend = errors.New("verif: injected send failure")
+
+func (m *faultMessenger) call() error {
+	k := m.n
+	m.n++
+
+	if k == m.failAt {
+		// position: number of states announced so far in this op (each as a Pre/Post pair), minus one
+		m.firedAt = len(m.w.events)/2 - 1
+		return errSend
+	}
+
+	return nil
+}
+
+func (m *faultMessenger) ReplyTo(string, service.DIDCommMsgMap, ...service.Opt) error {
+	return m.call()
+}
+func (m *faultMessenger) ReplyToMsg(_, _ service.DIDCommMsgMap, _, _ string, _ ...service.Opt) error {
+	return m.call()
+}
+func (m *faultMessenger) Send(service.DIDCommMsgMap, string, string, ...service.Opt) error {
+	return m.call()
+}
+func (m *faultMessenger) SendToDestination(service.DIDCommMsgMap, string, *service.Destination, ...service.Opt) error {
+	return m.call()
+}
+func (m *faultMessenger) ReplyToNested(service.DIDCommMsgMap, *service.NestedReplyOpts) error {
+	return m.call()
+}
+
 // world is one fresh service instance with its store and channels.
 type world struct {
+	msgr     *faultMessenger
+	failGet  bool
+	failTP   bool
+	failPut  int
+	nPut     int
 	proto    string
 	v3       bool
 	store    storage.Store
@@ -106,8 +156,33 @@ func newWorld(proto string, v3 bool) *world {
 	w := &world{proto: proto, v3: v3}
 	w.actions = make(chan service.DIDCommAction, 256)
 	w.events = make(chan service.StateMsg, 1024)
+	w.msgr = &faultMessenger{w: w, failAt: -1, firedAt: -1}
+	w.failPut = -1
 	sp := mem.NewProvider()
-	prov := &provider{m: &mocksvc.MockMessenger{}, s: sp}
+	rec := hx.NewRecProvider(sp)
+	rec.Record = false
+	rec.Before = func(c *hx.Call) error {
+		state := strings.HasPrefix(c.Key, "state_name_") || strings.HasPrefix(c.Key, "internal_data_")
+		if strings.HasSuffix(c.Key, "verif-barrier") {
+			return nil
+		}
+
+		switch {
+		case c.Op == "Get" && state && w.failGet:
+			return hx.ErrInjected
+		case c.Op == "Put" && state:
+			w.nPut++
+			if w.nPut-1 == w.failPut {
+				return hx.ErrInjected
+			}
+		case c.Op == "Put" && strings.HasPrefix(c.Key, "transitionalPayload_") && w.failTP:
+			return hx.ErrInjected
+		}
+
+		return nil
+	}
+
+	prov := &provider{m: w.msgr, s: rec}
 
 	var name string
 
@@ -358,7 +433,30 @@ func (w *world) hasLive(t int) bool {
 }
 
 // apply runs one op on the real service, to quiescence.
+func (w *world) arm(f string) {
+	w.failGet, w.failTP, w.failPut, w.nPut = false, false, -1, 0
+	w.msgr.failAt, w.msgr.n, w.msgr.firedAt = -1, 0, -1
+
+	switch {
+	case f == "get":
+		w.failGet = true
+	case f == "tp":
+		w.failTP = true
+	case strings.HasPrefix(f, "put"):
+		w.failPut, _ = strconv.Atoi(f[3:])
+	case strings.HasPrefix(f, "send"):
+		w.msgr.failAt, _ = strconv.Atoi(f[4:])
+	}
+}
+
 func (w *world) apply(op Op) (o Obs, staleEvent bool, bad string) {
+	w.arm(op.Fault)
+
+	defer func() {
+		o.FiredAt = w.msgr.firedAt
+		w.arm("")
+	}()
+
 	switch op.Kind {
 	case "msg":
 		o.Thread = op.T
@@ -376,7 +474,8 @@ func (w *world) apply(op Op) (o Obs, staleEvent bool, bad string) {
 		n := w.drainActions(op.T, op.Msg)
 
 		switch {
-		case err != nil && (strings.HasPrefix(err.Error(), "doHandle:") || strings.HasPrefix(err.Error(), "buildMetaData:")):
+		case err != nil && (strings.HasPrefix(err.Error(), "doHandle:") || strings.HasPrefix(err.Error(), "buildMetaData:") ||
+			strings.HasPrefix(err.Error(), "save transitional payload")):
 			o.Res = "reject"
 		case err != nil:
 			o.Res = "err"
@@ -487,6 +586,25 @@ func judge(proto string, op Op, o Obs, stale bool, bad string) verdict {
 		return verdict{fail: true, sig: proto + ":stale-action-event", detail: detail}
 	}
 
+	// an injected fault made the listener abandon the thread after a terminal state had been announced
+	if (op.Kind == "continue" || op.Kind == "stop") && kind == "path" && op.Fault != "" {
+		seq := append([]string{o.Pre}, o.Ann...)
+		for i := 0; i+1 < len(seq); i++ {
+			if !sp.edge(seq[i], seq[i+1]) {
+				if i > 0 && sp.terminal(seq[i]) && seq[i+1] == sp.Abandon {
+					class := "put"
+					if strings.HasPrefix(op.Fault, "send") {
+						class = "send"
+					}
+
+					return verdict{fail: true, sig: proto + ":" + class + "-fault-after-terminal", detail: detail}
+				}
+
+				break
+			}
+		}
+	}
+
 	return verdict{fail: true, sig: proto + ":" + kind, detail: detail}
 }
 
@@ -531,6 +649,29 @@ func coqTape(n *numbering, tape []string) string {
 	return hx.CoqList(l)
 }
 
+func coqFault(op Op, o Obs) string {
+	get, tp, put, act := "false", "false", "None", "None"
+
+	switch {
+	case op.Fault == "get":
+		get = "true"
+	case op.Fault == "tp":
+		tp = "true"
+	case strings.HasPrefix(op.Fault, "put"):
+		put = "(Some " + op.Fault[3:] + "%nat)"
+	}
+
+	if o.FiredAt >= 0 {
+		act = fmt.Sprintf("(Some %d%%nat)", o.FiredAt)
+	}
+
+	if get == "false" && tp == "false" && put == "None" && act == "None" {
+		return "nofault"
+	}
+
+	return "{| f_get := " + get + "; f_tp := " + tp + "; f_put := " + put + "; f_act := " + act + " |}"
+}
+
 func coqRes(r string) string {
 	return map[string]string{"reject": "RReject", "action": "RAction", "ok": "ROk", "err": "RErr", "noevent": "RNoEvent"}[r]
 }
@@ -545,12 +686,13 @@ func coqCase(c *Case, obs []Obs) string {
 
 		switch op.Kind {
 		case "msg":
-			ops = append(ops, fmt.Sprintf("Msg %s %d %s %s %d %s", hx.CoqBool(op.Out), c09tab.Index(c09tab.Msgs[c.Proto], op.Msg),
-				hx.CoqBool(c.V3), hx.CoqBool(op.Flag), op.T, tape))
+			ops = append(ops, fmt.Sprintf("Msg %s %d %s %s %d %s %s", hx.CoqBool(op.Out), c09tab.Index(c09tab.Msgs[c.Proto], op.Msg),
+				hx.CoqBool(c.V3), hx.CoqBool(op.Flag), op.T, coqFault(op, obs[i]), tape))
 		case "continue":
-			ops = append(ops, fmt.Sprintf("Continue %d%%nat %d %s", op.Ev, c09tab.Index(c09tab.Opts[c.Proto], op.Opt), tape))
+			ops = append(ops, fmt.Sprintf("Continue %d%%nat %d %s %s", op.Ev, c09tab.Index(c09tab.Opts[c.Proto], op.Opt),
+				coqFault(op, obs[i]), tape))
 		case "stop":
-			ops = append(ops, fmt.Sprintf("Stop %d%%nat %s", op.Ev, tape))
+			ops = append(ops, fmt.Sprintf("Stop %d%%nat %s %s", op.Ev, coqFault(op, obs[i]), tape))
 		}
 
 		var ann []string
@@ -577,7 +719,10 @@ func tapeOf(proto string, op Op, o Obs) []string {
 	chains := [][]string{o.Ann}
 	failedFirst := false
 
-	if op.Kind != "msg" {
+	if op.Kind != "msg" && o.FiredAt >= 0 && o.FiredAt+1 < len(o.Ann) && o.Ann[o.FiredAt+1] == sp.Abandon {
+		// a send failed after the complete chain o.Ann[:FiredAt+1]; the listener abandoned afterwards
+		chains = [][]string{o.Ann[:o.FiredAt+1], o.Ann[o.FiredAt+1:]}
+	} else if op.Kind != "msg" {
 		for i, a := range o.Ann {
 			if a == sp.Abandon && i > 0 {
 				chains = [][]string{o.Ann[:i], o.Ann[i:]}
@@ -588,6 +733,11 @@ func tapeOf(proto string, op Op, o Obs) []string {
 		}
 	} else if o.Res == "err" {
 		failedFirst = true
+	}
+
+	// actions run after the whole chain: a failed send means the chain itself was complete
+	if o.FiredAt >= 0 && o.FiredAt == len(chains[0])-1 {
+		failedFirst = false
 	}
 
 	var tape []string
@@ -737,7 +887,29 @@ type node struct {
 }
 
 // explore: breadth-first over the abstract states reachable by histories; every (state, op) pair becomes a case.
-func explore(tr *hx.Trace, proto string, v3 bool, depth, threads, twoUntil, coqBudget int) {
+// faultsFor lists the faults worth injecting into an op that did something.
+func faultsFor(proto string, op Op, res string) []string {
+	if proto == "intro" {
+		// introduce uses the store for participants and metadata as well; only send failures are injected
+		if op.Kind == "msg" && res == "action" {
+			return nil
+		}
+
+		return []string{"send0", "send1"}
+	}
+
+	switch {
+	case op.Kind == "msg" && res == "action":
+		return []string{"get", "tp"}
+	case op.Kind == "msg":
+		return []string{"get", "put0", "put1", "send0", "send1"}
+	default:
+		return []string{"put0", "put1", "put2", "send0", "send1", "send2"}
+	}
+}
+
+func explore(tr *hx.Trace, proto string, v3 bool, depth, threads, twoUntil, faultDepth, coqBudget int) {
+	coqFault2 := 0
 	seen := map[string]bool{"": true}
 	frontier := []node{{}}
 	coqUsed := 0
@@ -755,6 +927,17 @@ func explore(tr *hx.Trace, proto string, v3 bool, depth, threads, twoUntil, coqB
 				c := &Case{Proto: proto, V3: v3, Ops: append(append([]Op{}, nd.ops...), op)}
 				key, res := runCase(tr, "exhaustive", c, coqUsed < coqBudget)
 				coqUsed++
+
+				// every fault kind on this op (from this reached state); faulted histories are not expanded
+				if d < faultDepth && res != "reject" && res != "noevent" {
+					for _, fl := range faultsFor(proto, op, res) {
+						fo := op
+						fo.Fault = fl
+						fc := &Case{Proto: proto, V3: v3, Ops: append(append([]Op{}, nd.ops...), fo)}
+						runCase(tr, "exhaustive-fault", fc, coqFault2 < coqBudget)
+						coqFault2++
+					}
+				}
 
 				if seen[key] {
 					continue
@@ -818,6 +1001,20 @@ func randomCase(rng *hx.Rng, proto string, v3 bool, maxLen int) *Case {
 		default:
 			c.Ops = append(c.Ops, Op{Kind: "stop", Ev: rng.Intn(nEv)})
 		}
+
+		if rng.Intn(6) == 0 {
+			last := &c.Ops[len(c.Ops)-1]
+			fl := []string{"send0", "send1", "send2"}
+
+			if proto != "intro" {
+				fl = append(fl, "put0", "put1", "put2")
+				if last.Kind == "msg" {
+					fl = append(fl, "get", "tp")
+				}
+			}
+
+			last.Fault = fl[rng.Intn(len(fl))]
+		}
 	}
 
 	return c
@@ -878,9 +1075,9 @@ func main() {
 		}
 	}
 
-	depth, nRandom, maxLen, budget, twoUntil := 4, 600, 16, 1800, 2
+	depth, nRandom, maxLen, budget, twoUntil, faultDepth := 4, 600, 16, 1800, 2, 3
 	if a.Tier == "thorough" {
-		depth, nRandom, maxLen, budget, twoUntil = 4, 4000, 24, 8000, 3
+		depth, nRandom, maxLen, budget, twoUntil, faultDepth = 4, 4000, 24, 8000, 3, 4
 	}
 
 	rng := hx.NewRng(a.Seed)
@@ -891,7 +1088,7 @@ func main() {
 				continue
 			}
 
-			explore(tr, p, v3, depth, 2, twoUntil, budget)
+			explore(tr, p, v3, depth, 2, twoUntil, faultDepth, budget)
 
 			r := rng.Fork(uint64(pi*2 + map[bool]int{false: 0, true: 1}[v3]))
 			for i := 0; i < nRandom; i++ {
